@@ -75,6 +75,22 @@ Theorem C10_sparse_failed_load : forall idx nullid store s k th i todo rq q c,
 Proof. exact sparse_failed_load. Qed.
 Print Assumptions C10_sparse_failed_load.
 
+(* sparse_retry.  For EVERY schedule -- here with every restart allowed, paired or not -- and every fault pattern:
+   a ReadAt with a non-empty buffer that reported success is backed, for every chunk it covers that is not the null
+   chunk, by a GetChunk call for that chunk that SUCCEEDED and whose data was written (s_fetched records the call
+   number), in this or an earlier incarnation.  A failed load is not such a call, and by C10_sparse_failed_load it
+   leaves no done bit: after a failed load a later read of that range calls the store again, or is served by another
+   successful call, or fails -- it never succeeds on the unpopulated zeros. *)
+Theorem C10_sparse_retry : forall idx nullid store sched off len d eof,
+  tiles_from 0 idx ->
+  let s := run (step idx nullid store) sched (init idx) in
+  In (RqRead off len, ROk d eof) (s_log s) ->
+  0 <= off -> (1 <= len)%nat -> off + Z.of_nat len < two64 ->
+  forall j r, nth_error idx j = Some r -> row_overlaps r off len ->
+    r_id r = nullid \/ exists c d', In (c, j) (s_fetched s) /\ store c (r_id r) = SData d'.
+Proof. exact sparse_retry. Qed.
+Print Assumptions C10_sparse_retry.
+
 (* No index-out-of-range panic for any schedule in which the index has at least one chunk and no ReadAt has an
    empty buffer.  (Both conditions are needed: C10_zero_length_read_at_eof_panics, C10_empty_index_read_panics.) *)
 Theorem C10_sparse_no_panic : forall idx nullid store sched,
